@@ -276,7 +276,7 @@ def ddmin_list(items, still_fails, max_tests=400):
 def write_replay(prop, seed, record):
     d = os.path.join(VERIF, 'replays')
     os.makedirs(d, exist_ok=True)
-    path = os.path.join(d, '%s-%d.json' % (prop, seed))
+    path = os.path.join(d, '%s-%s.json' % (prop, seed))
     with open(path, 'w') as f:
         f.write(jdump(record, indent=1, sort_keys=True))
     return path
@@ -307,7 +307,7 @@ def merge_counters(dst, src):
         if isinstance(v, dict):
             merge_counters(dst.setdefault(k, {}), v)
         elif isinstance(v, (int, float)):
-            dst[k] = dst.get(k, 0) + v
+            dst[k] = max(dst.get(k, 0), v) if k == 'max' else dst.get(k, 0) + v
     return dst
 
 
